@@ -1,4 +1,22 @@
-"""C08 worker: all feasibility / violation entry points of a CQM on the real implementation."""
+"""C08 worker: all feasibility / violation entry points of a CQM on the real implementation.
+
+Coverage (which stream reaches which clause of the property text):
+  every CQM        labels: mixed pool | 0..n-1 added in ascending order | 0..n-1 added in ANY order | integers not at
+                   their own index ("labels");  variables declared up-front or entering through the objective /
+                   the constraints in order of first use, expression terms in shuffled order ("preadd", "shuf");
+                   variables only in constraints / only in the objective / in neither; BINARY, SPIN, small and wide INTEGER
+  all senses, soft/hard, linear/quadratic penalty, constant-only     rand_expr / gen_case (unchanged)
+  all samples      forms ("form"): list of dicts (key order = column order) | (ndarray, labels) | (list of lists, labels)
+                   | unlabelled ndarray | unlabelled list of lists (only for 0..n-1 labels) | SampleSet;
+                   the COLUMN ORDER is a random permutation independent of the model's order ("cols"), with columns the
+                   model does not know ("extra"); per-sample entry points get a one-row matrix, a 1-d row or a dict
+                   ("single"); every sample dtype that can hold the values; zero rows ("rows": []);
+                   a model label missing from the samples ("drop": ValueError exactly when an expression needs it)
+  all tolerances   {0, 1/1024, 1/4, 1}^2 or the defaults
+  entry points     violations, iter_violations x (skip_satisfied, clip), iter_constraint_data, check_feasible,
+                   from_samples_cqm (is_satisfied, is_feasible, energy), objective.energies, ExactCQMSolver
+The sample handed to Coq is the INPUT (column labels + values as passed in), never what the implementation echoes back.
+"""
 from fractions import Fraction
 import itertools
 import numpy as np
@@ -60,9 +78,23 @@ def rand_expr(rng, vars_, integer, allow_quad=True):
     return {"lin": lin, "quad": quad, "off": str(coef()) if rng.random() < 0.6 else "0"}
 
 
+def gen_labels(rng, nv):
+    r = rng.random()
+    if r < 0.3:
+        return gen.rand_labels(rng, nv)                 # mixed kinds
+    if r < 0.6:
+        l = list(range(nv)); rng.shuffle(l); return l   # 0..n-1, added in any order
+    if r < 0.72:
+        return list(range(nv))                          # 0..n-1 in order: every label at its own index
+    return rng.sample(range(0, nv + 2), nv)             # integers, some not at their own index, gaps
+
+
+EXTRA_LABELS = ['zz', ('t', 9), 11, 'q']
+
+
 def gen_case(rng, tier):
     nv = rng.randint(1, 5)
-    labels = gen.rand_labels(rng, nv)
+    labels = gen_labels(rng, nv)
     vars_ = []
     for l in labels:
         vt = rng.choice(['BINARY', 'BINARY', 'SPIN', 'INTEGER'])
@@ -89,19 +121,57 @@ def gen_case(rng, tier):
             e["penalty"] = rng.choice(['linear', 'quadratic'])
         cons.append(e)
     rows = [[rand_value(rng, v) for v in vars_] for _ in range(rng.randint(1, 6))]
-    fit = fitting_dtypes(rows)
+    if rng.random() < 0.03:
+        rows = []
+    fit = fitting_dtypes(rows or [[0]])
     # unsigned and narrow types first when they fit: those are the ones conversions get wrong
     pref = [d for d in fit if d.startswith('u')] * 3 + fit
     c = {"vars": vars_, "obj": obj, "cons": cons, "rows": rows,
-         "form": rng.choice(['dict', 'array', 'array', 'array']), "dtype": rng.choice(pref),
+         "form": rng.choice(['dict', 'array', 'array', 'array', 'list', 'sampleset']), "dtype": rng.choice(pref),
          "atol": None if default_tol else rng.choice(TOLS), "rtol": None if default_tol else rng.choice(TOLS),
          "exact": rng.random() < 0.5}
+    # how the variables enter the model, and in which order the terms of each expression are added
+    c["preadd"] = rng.random() < 0.5
+    c["shuf"] = rng.randrange(1 << 30) if rng.random() < 0.6 else None
+    # the columns of the samples: a permutation of the model's labels chosen independently of the model's order
+    cols = [v[0] for v in vars_]
+    if rng.random() < 0.6:
+        rng.shuffle(cols)
+    isrange = all(isinstance(l, int) for l in labels) and sorted(labels) == list(range(nv))
+    unl = isrange and rng.random() < 0.5
+    if unl:
+        cols = list(range(nv))
+        c["form"] = rng.choice(['unlabelled', 'unlabelled', 'unlabelled_list'])
+    if rng.random() < 0.2:
+        if unl or (isrange and rng.random() < 0.5):
+            cols = cols + [nv]                           # still a plain range, one column more than the model has
+        else:
+            ex = [enc_label(x) for x in EXTRA_LABELS if x not in labels]
+            cols.insert(rng.randint(0, len(cols)), rng.choice(ex))
+    elif not unl and rows and rng.random() < 0.08:
+        c["drop"] = True
+        cols.remove(rng.choice(cols))                    # a model label the samples do not have
+    c["cols"] = cols
+    c["single"] = rng.choice(['same', 'same', '1d', 'dict'])
     return c
 
 
-def expr_qm(e, vinfo):
+def expr_qm(e, vinfo, shuf=None):
     qm = dimod.QuadraticModel()
-    used = [t[0] for t in e["lin"]] + [x for t in e["quad"] for x in t[:2]]
+    if shuf is not None:
+        import random
+        r = random.Random(shuf)
+        e = dict(e, lin=list(e["lin"]), quad=[list(t) for t in e["quad"]])
+        r.shuffle(e["lin"]); r.shuffle(e["quad"])
+        for t in e["quad"]:
+            if r.random() < 0.5:
+                t[0], t[1] = t[1], t[0]
+        if e["quad"] and r.random() < 0.5:
+            used = [x for t in e["quad"] for x in t[:2]] + [t[0] for t in e["lin"]]
+        else:
+            used = [t[0] for t in e["lin"]] + [x for t in e["quad"] for x in t[:2]]
+    else:
+        used = [t[0] for t in e["lin"]] + [x for t in e["quad"] for x in t[:2]]
     for l in used:
         _, vt, lb, ub = vinfo[repr(l)]
         if dec_label(l) in qm.variables:
@@ -121,12 +191,19 @@ def expr_qm(e, vinfo):
 def build(c):
     cqm = dimod.ConstrainedQuadraticModel()
     vinfo = {repr(v[0]): v for v in c["vars"]}
-    for l, vt, lb, ub in c["vars"]:
-        if vt == 'INTEGER':
-            cqm.add_variable(vt, dec_label(l), lower_bound=lb, upper_bound=ub)
-        else:
-            cqm.add_variable(vt, dec_label(l))
-    cqm.set_objective(expr_qm(c["obj"], vinfo))
+    shuf = c.get("shuf")
+
+    def declare():
+        for l, vt, lb, ub in c["vars"]:
+            if dec_label(l) in cqm.variables:
+                continue
+            if vt == 'INTEGER':
+                cqm.add_variable(vt, dec_label(l), lower_bound=lb, upper_bound=ub)
+            else:
+                cqm.add_variable(vt, dec_label(l))
+    if c.get("preadd", True):
+        declare()
+    cqm.set_objective(expr_qm(c["obj"], vinfo, shuf))
     labels = []
     for i, e in enumerate(c["cons"]):
         kw = {}
@@ -136,13 +213,60 @@ def build(c):
             if pen == 'quadratic' and any(vinfo[repr(l)][1] == 'INTEGER' for l in used):
                 pen = 'linear'
             kw = dict(weight=float(F(e["weight"])), penalty=pen)
-        labels.append(cqm.add_constraint_from_model(expr_qm(e, vinfo), e["sense"], rhs=float(F(e["rhs"])),
-                                                    label=f"c{i}", **kw))
+        labels.append(cqm.add_constraint_from_model(expr_qm(e, vinfo, None if shuf is None else shuf + i + 1),
+                                                    e["sense"], rhs=float(F(e["rhs"])), label=f"c{i}", **kw))
+    declare()          # variables used nowhere come last
     return cqm, labels
 
 
 def nq(pairs, pos):
     return clist([cpair(cnat(pos[l]), cq(F(v))) for l, v in pairs])
+
+
+def xexpr_term(target, cqm):
+    """raw state of an objective / constraint view: parent indices + biases over local indices"""
+    idx = [int(x) for x in target._iindices()]
+    pv = list(cqm.variables)
+    rvts = clist([cqm.vartype(pv[i]).name for i in idx])
+    rlin = clist([cq(F(x)) for x in target._ilinear()])
+    rquad = clist([f"({cnat(int(u))}, {cnat(int(v))}, {cq(F(b))})" for u, v, b in target._iquadratic()])
+    return f"(mkX {clist([cnat(i) for i in idx])} (qm_of_raw {rvts} {rlin} {rquad} {cq(F(target.offset))}))"
+
+
+def make_samples_like(form, mat, cols, dtype):
+    """the samples-like object of the given form for the matrix `mat` (rows x cols)"""
+    n = len(cols)
+    if form == 'dict':
+        return [dict(zip(cols, r)) for r in mat]
+    if form == 'array':
+        return (np.array(mat, dtype=dtype).reshape(len(mat), n), cols)
+    if form == 'list':
+        return ([list(r) for r in mat], cols) if mat else (np.empty((0, n), dtype=dtype), cols)
+    if form == 'unlabelled':
+        return np.array(mat, dtype=dtype).reshape(len(mat), n)
+    if form == 'unlabelled_list':
+        return [list(r) for r in mat] if mat else np.empty((0, n), dtype=dtype)
+    if form == 'sampleset':
+        return dimod.SampleSet.from_samples((np.array(mat, dtype=dtype).reshape(len(mat), n), cols),
+                                            energy=[0] * len(mat), vartype='INTEGER')
+    raise RuntimeError(form)
+
+
+def single_like(form, single, row, cols, dtype):
+    if single == 'dict' and form not in ('unlabelled', 'unlabelled_list'):
+        return dict(zip(cols, row))
+    if single == '1d':
+        if form in ('unlabelled', 'sampleset'):
+            return np.array(row, dtype=dtype) if form == 'unlabelled' else (np.array(row, dtype=dtype), cols)
+        if form == 'unlabelled_list':
+            return list(row)
+        if form == 'array':
+            return (np.array(row, dtype=dtype), cols)
+        if form == 'list':
+            return (list(row), cols)
+        return dict(zip(cols, row))
+    sl = make_samples_like(form, [row], cols, dtype)
+    return sl[0] if form == 'dict' else sl
 
 
 def run_case(c):
@@ -157,6 +281,7 @@ def run_case(c):
     if list(cqm.constraints) != labels:
         py_fail = "constraint order differs from insertion order"
     cons = []
+    xcons = []
     any_soft = False
     for l in labels:
         con = cqm.constraints[l]
@@ -168,28 +293,84 @@ def run_case(c):
             if con.lhs.weight() != float('inf'):
                 py_fail = "hard constraint with finite weight"
         cons.append(f"({coq_obs(gen.observe(con.lhs), T)}, {SENSE[con.sense.value]}, {cq(F(con.rhs))}, {soft})")
-    cvars = [dec_label(v[0]) for v in c["vars"]]
-    samples = [dict(zip(cvars, r)) for r in c["rows"]]
-    form = c.get("form", 'dict' if len(samples) % 2 else 'array')
-    dtype = np.dtype(c.get("dtype", 'int8' if len(samples) % 4 else 'float64'))
-    if form == 'dict':
-        sl = samples
-    else:
-        sl = (np.array(c["rows"], dtype=dtype).reshape(len(samples), len(cvars)), cvars)
-        if [[int(x) for x in r] for r in sl[0]] != [list(r) for r in c["rows"]]:
+        xcons.append(f"(mkXCon {xexpr_term(con.lhs, cqm)} {SENSE[con.sense.value]} {cq(F(con.rhs))} {soft})")
+    mvars = [dec_label(v[0]) for v in c["vars"]]
+    if sorted(map(repr, cqm.variables)) != sorted(map(repr, mvars)):
+        py_fail = "the model's variables are not the declared ones"
+    # the samples AS PASSED IN: column labels (any order, extra columns, possibly one model label missing) and values
+    cols = [dec_label(l) for l in c["cols"]] if "cols" in c else list(mvars)
+    form = c.get("form", 'dict' if len(c["rows"]) % 2 else 'array')
+    single = c.get("single", 'same')
+    dtype = np.dtype(c.get("dtype", 'int8' if len(c["rows"]) % 4 else 'float64'))
+    mpos = {repr(v): i for i, v in enumerate(mvars)}
+    mat = [[r[mpos[repr(col)]] if repr(col) in mpos else (k + j) % 2 for j, col in enumerate(cols)]
+           for k, r in enumerate(c["rows"])]
+    if form in ('array', 'unlabelled', 'sampleset') and mat:
+        if [[int(x) for x in r] for r in np.array(mat, dtype=dtype)] != mat:
             raise RuntimeError("generated rows are not representable in the chosen dtype")
+    if form in ('unlabelled', 'unlabelled_list') and cols != list(range(len(cols))):
+        raise RuntimeError("unlabelled samples need columns 0..n-1")
+    sl = make_samples_like(form, mat, cols, dtype)
+    xm = (f"(mkXCqm {clist([cnat(T.idx(enc_label(v))) for v in cqm.variables])} {xexpr_term(cqm.objective, cqm)} "
+          f"{clist(xcons)})")
+    ls = clist([cnat(T.idx(enc_label(v))) for v in cols])
+    cmat = [clist([cq(x) for x in r]) for r in mat]
+    missing = [v for v in mvars if repr(v) not in set(map(repr, cols))]
+    feats = {"default_tol": default_tol, "soft": any_soft, "form": form, "single": single,
+             "dtype": dtype.name if form in ('array', 'unlabelled', 'sampleset') else None,
+             "cols_in_model_order": [repr(x) for x in cols] == [repr(x) for x in cqm.variables],
+             "range_labels": all(isinstance(v, int) for v in mvars) and sorted(mvars) == list(range(len(mvars))),
+             "labels_at_own_index": all(isinstance(v, int) and v == i for i, v in enumerate(cqm.variables)),
+             "extra_cols": len(cols) + len(missing) - len(mvars), "dropped": bool(missing), "rows": len(mat)}
+    if missing and not mat:
+        # zero rows and a missing label: which path from_samples_cqm takes depends on len(samples_like); not compared
+        return {"coq": None, "py_fail": py_fail, "features": feats, "nontrivial": False}
+    if missing:
+        # a model label is missing: ValueError exactly when an evaluated expression needs it
+        ps_raised = []
+        for k, row in enumerate(mat):
+            s = single_like(form, single, row, cols, dtype)
+            outs = []
+            for f in (lambda: cqm.violations(s), lambda: list(cqm.iter_constraint_data(s)),
+                      lambda: cqm.check_feasible(s, **tk)):
+                try:
+                    f(); outs.append(False)
+                except ValueError:
+                    outs.append(True)
+            if outs[0] != outs[1]:
+                py_fail = "violations() and iter_constraint_data() do not raise alike on a missing label"
+            if outs[2] and not outs[0]:
+                py_fail = "check_feasible raised where iter_constraint_data did not"
+            ps_raised.append(outs[1])
+        try:
+            dimod.SampleSet.from_samples_cqm(sl, cqm, **tk); vec_raised = False
+        except ValueError:
+            vec_raised = True
+        if vec_raised or any(ps_raised):
+            lhs = clist([coq_obs(gen.observe(cqm.constraints[l].lhs), T) for l in labels])
+            coq = (f"(mkRCase {cnat(len(T))} {coq_obs(gen.observe(cqm.objective), T)} {lhs} {xm} {ls} {clist(cmat)} "
+                   f"{clist([cbool(b) for b in ps_raised])} {cbool(vec_raised)})")
+            feats["raised"] = True
+            return {"coq": coq, "check_fn": "check_raise", "py_fail": py_fail, "features": feats, "nontrivial": True}
     ss = dimod.SampleSet.from_samples_cqm(sl, cqm, **tk)
-    if ss.info.get('constraint_labels') != labels:
+    if 'constraint_labels' not in ss.info and len(ss.record) == 0:
+        # the zero-row early return of from_samples_cqm does not fill info['constraint_labels'] (reported, not part of C08)
+        feats["empty_without_constraint_labels"] = True
+    elif ss.info.get('constraint_labels') != labels:
         py_fail = "info['constraint_labels'] differs from the constraint order"
+    if len(ss.record) != len(mat):
+        py_fail = "from_samples_cqm changed the number of rows"
+    if ss.record.is_satisfied.shape != (len(mat), len(labels)) or ss.record.is_satisfied.dtype != np.bool_:
+        py_fail = "is_satisfied has the wrong shape / dtype"
+    obj_en = [F(x) for x in cqm.objective.energies(sl)] if mat else []
     rows = []
     soft_violated_feasible = False
-    for k in range(len(ss.record)):
+    for k in range(len(mat)):
         rec = ss.record[k]
-        sd = {v: int(rec.sample[i]) for i, v in enumerate(ss.variables)}
-        if sd != samples[k]:
+        sd = {repr(v): int(rec.sample[i]) for i, v in enumerate(ss.variables)}
+        if sd != {repr(v): a for v, a in zip(cols, mat[k])}:
             py_fail = "from_samples_cqm reordered or changed the samples"
-        # the per-sample entry points get the sample in the same form (a one-row array of the same dtype)
-        s = sd if form == 'dict' else (np.array([c["rows"][k]], dtype=dtype), cvars)
+        s = single_like(form, single, mat[k], cols, dtype)
         data = list(cqm.iter_constraint_data(s))
         if [d.label for d in data] != labels:
             py_fail = "iter_constraint_data labels/order"
@@ -198,6 +379,14 @@ def run_case(c):
         viol = cqm.violations(s)
         if list(viol) != labels:
             py_fail = "violations() keys/order"
+        # the `labels=` keyword: a sub-list of the constraints in another order
+        sub = labels[::-2]
+        key = lambda d: (d.label, d.lhs_energy, d.rhs_energy, d.sense, d.activity, d.violation)
+        full = {d.label: key(d) for d in data}
+        if [key(d) for d in cqm.iter_constraint_data(s, labels=sub)] != [full[l] for l in sub]:
+            py_fail = "iter_constraint_data(labels=...) differs from the full data / the requested order"
+        if list(cqm.iter_violations(s, labels=sub)) != [(l, viol[l]) for l in sub]:
+            py_fail = "iter_violations(labels=...) differs from violations() / the requested order"
         vclip = list(cqm.iter_violations(s, clip=True))
         vskip = list(cqm.iter_violations(s, skip_satisfied=True))
         vboth = list(cqm.iter_violations(s, skip_satisfied=True, clip=True))
@@ -207,9 +396,8 @@ def run_case(c):
         cf = cqm.check_feasible(s, **tk)
         if (not cf) and bool(rec.is_feasible):
             soft_violated_feasible = True
-        sample = clist([cpair(cnat(T.idx(enc_label(v))), cq(a)) for v, a in sd.items()])
         rdata = clist([f"({cq(F(d.lhs_energy))}, {cq(F(d.rhs_energy))}, {cq(F(d.activity))}, {cq(F(d.violation))})" for d in data])
-        rows.append(f"(mkRow {sample} {rdata} {nq(viol.items(), pos)} {nq(vclip, pos)} {nq(vskip, pos)} {nq(vboth, pos)} "
+        rows.append(f"(mkRow {cmat[k]} {rdata} {nq(viol.items(), pos)} {nq(vclip, pos)} {nq(vskip, pos)} {nq(vboth, pos)} "
                     f"{cbool(cf)} {clist([cbool(b) for b in rec.is_satisfied])} {cbool(rec.is_feasible)} {cq(F(rec.energy))})")
     xrows = []
     dom = 1
@@ -219,15 +407,17 @@ def run_case(c):
         xs = dimod.ExactCQMSolver().sample_cqm(cqm, **tk)
         if len(xs.record) != dom:
             py_fail = f"ExactCQMSolver returned {len(xs.record)} rows for {dom} assignments"
+        if len(set(map(tuple, xs.record.sample.tolist()))) != dom:
+            py_fail = "ExactCQMSolver returned repeated assignments"
         for k in range(len(xs.record)):
             rec = xs.record[k]
             sample = clist([cpair(cnat(T.idx(enc_label(v))), cq(int(rec.sample[i]))) for i, v in enumerate(xs.variables)])
             xrows.append(f"(mkXRow {sample} {clist([cbool(b) for b in rec.is_satisfied])} {cbool(rec.is_feasible)} {cq(F(rec.energy))})")
     strict = bool(c.get("cf_strict"))
-    coq = (f"(mkCase {coq_obs(gen.observe(cqm.objective), T)} {clist(cons)} {cq(atol)} {cq(rtol)} {cbool(strict)} "
-           f"{clist(rows)} {clist(xrows)})")
-    feats = {"default_tol": default_tol, "soft": any_soft, "exact": bool(xrows), "form": form,
-             "dtype": dtype.name if form != 'dict' else None}
+    cobj = coq_obs(gen.observe(cqm.objective), T)
+    coq = (f"(mkCase {cnat(len(T))} {cobj} {clist(cons)} {xm} {ls} {clist([cq(x) for x in obj_en])} "
+           f"{cq(atol)} {cq(rtol)} {cbool(strict)} {clist(rows)} {clist(xrows)})")
+    feats["exact"] = bool(xrows)
     if strict and soft_violated_feasible:
         feats["check_feasible_counts_soft"] = True
     return {"coq": coq, "py_fail": py_fail, "features": feats, "nontrivial": len(labels) > 0,
